@@ -220,56 +220,56 @@ func runC09(s *core.Sim, tier string) RunInfo {
 	if n > 2 {
 		q = (2*n + 2) / 3
 	}
-	type cand struct {
-		h    *H
-		soft bool
-		cnt  int
-	}
-	cands := map[string]*cand{}
-	hanging := 0
-	for _, i := range asked {
-		if kindOf[i] == "hang" {
-			hanging++
+	judgeAgainst := func(th *H, got *H, gerr error) {
+		type cand struct {
+			h    *H
+			soft bool
+			cnt  int
 		}
-		h := answers[i]
-		if h == nil {
-			continue
-		}
-		if withTrusted {
-			v := simhdr.ModelVerify(time.Now(), 10*time.Second, trustedHead, h)
-			if !v.OK && !(v.TypeErr && v.Soft) {
-				continue // hard failure: not a supplied header
+		cands := map[string]*cand{}
+		hanging := 0
+		for _, i := range asked {
+			if kindOf[i] == "hang" {
+				hanging++
 			}
-			c := cands[string(h.Hash())]
-			if c == nil {
-				c = &cand{h: h, soft: !v.OK}
-				cands[string(h.Hash())] = c
+			h := answers[i]
+			if h == nil {
+				continue
 			}
-			c.cnt++
-		} else {
-			c := cands[string(h.Hash())]
-			if c == nil {
-				c = &cand{h: h}
-				cands[string(h.Hash())] = c
+			if withTrusted {
+				v := simhdr.ModelVerify(time.Now(), 10*time.Second, th, h)
+				if !v.OK && !(v.TypeErr && v.Soft) {
+					continue // hard failure: not a supplied header
+				}
+				c := cands[string(h.Hash())]
+				if c == nil {
+					c = &cand{h: h, soft: !v.OK}
+					cands[string(h.Hash())] = c
+				}
+				c.cnt++
+			} else {
+				c := cands[string(h.Hash())]
+				if c == nil {
+					c = &cand{h: h}
+					cands[string(h.Hash())] = c
+				}
+				c.cnt++
 			}
-			c.cnt++
 		}
-	}
-	var quorum []*cand
-	var highest uint64
-	for _, c := range cands {
-		if c.cnt >= q {
-			quorum = append(quorum, c)
+		var quorum []*cand
+		var highest uint64
+		for _, c := range cands {
+			if c.cnt >= q {
+				quorum = append(quorum, c)
+			}
+			if c.h.Height() > highest {
+				highest = c.h.Height()
+			}
 		}
-		if c.h.Height() > highest {
-			highest = c.h.Height()
+		isSoftErr := func(err error) bool {
+			var ve *header.VerifyError
+			return errors.As(err, &ve) && ve.SoftFailure
 		}
-	}
-	isSoftErr := func(err error) bool {
-		var ve *header.VerifyError
-		return errors.As(err, &ve) && ve.SoftFailure
-	}
-	judge := func(got *H, gerr error) {
 		switch {
 		case got != nil && (gerr == nil || isSoftErr(gerr)):
 			c := cands[string(got.Hash())]
@@ -278,7 +278,7 @@ func runC09(s *core.Sim, tier string) RunInfo {
 				return
 			}
 			if withTrusted && c.soft != (gerr != nil) {
-				s.Violate("trusted-head-verdict", map[string]string{"soft": fmt.Sprint(c.soft)}, "Head(WithTrustedHead(%d)) returned %v with err=%v; against the trusted head it is soft-failing=%v", tH, got, gerr, c.soft)
+				s.Violate("trusted-head-verdict", map[string]string{"soft": fmt.Sprint(c.soft)}, "Head(WithTrustedHead(%d)) returned %v with err=%v; against the trusted head it is soft-failing=%v", th.Height(), got, gerr, c.soft)
 				return
 			}
 			if !withTrusted && gerr != nil {
@@ -327,9 +327,31 @@ func runC09(s *core.Sim, tier string) RunInfo {
 			s.Violate("header-with-hard-error", at, "Head returned %v together with the non-soft error %v", got, gerr)
 		}
 	}
+	judge := func(got *H, gerr error) { judgeAgainst(trustedHead, got, gerr) }
 	judge(got, gerr)
 	if second == "head" && len(s.Violations) == 0 {
 		judge(got2, gerr2)
+	}
+	if withTrusted && np <= 4 && !emptyTracker && len(s.Violations) == 0 && s.Tape.Coin("then-another-trusted-head", 1, 3) {
+		// the same Exchange is asked again with a different trusted head: the verdict on what the
+		// peers report is a verdict against *that* head
+		th2 := core.Pick(s.Tape, "other-trusted", []*H{simhdr.WrongChain(trustedHead), w.Ch.At(C.Height() + 5), w.Ch.At(tH - 5), w.Ch.At(tH + 1)})
+		var got3 *H
+		var gerr3 error
+		t3, fin3 := s.Do("head-again", deadline+2*time.Second, func() {
+			ctx, cancel := context.WithTimeout(context.Background(), deadline)
+			defer cancel()
+			got3, gerr3 = w.Ex.Head(ctx, header.WithTrustedHead[*H](th2))
+		})
+		s.Probe("head-again-with-another-trusted-head")
+		if t3.Panic != nil {
+			s.Violate("panic", at, "the second Head panicked: %v\n%s", t3.Panic, t3.Stack)
+		} else if !fin3 {
+			s.Violate("hang", at, "the second Head did not return within its deadline [%v]", desc)
+		} else {
+			at = map[string]string{"trusted": "second"}
+			judgeAgainst(th2, got3, gerr3)
+		}
 	}
 	return info
 }
